@@ -515,6 +515,29 @@ class Program:
         self.adts = {a["path"]: a for a in j["adts"]}
         self._cg = None
         self._closure_sites = None
+        self._fold_named_float_consts()
+
+    def _fold_named_float_consts(self):
+        """`const EMPTY: f32 = 0.0;` used as an operand reads like the literal it names (integer constants are evaluated by the driver)"""
+        lit = {}
+        for b in self.bodies.values():
+            if b.kind != "Const":
+                continue
+            sts = [st for _, st in b.stmts() if st.k == "assign" and st.place.is_local() and st.place.local == 0]
+            if len(sts) == 1 and len(b.blocks) == 1 and sts[0].rv and sts[0].rv["k"] == "use" and sts[0].rv["op"].kind == "const" and sts[0].rv["op"].float_value() is not None and "def" not in sts[0].rv["op"].const:
+                lit[b.id] = sts[0].rv["op"].const["val"]
+        if not lit:
+            return
+        for b in self.bodies.values():
+            ops = []
+            for _, st in b.stmts():
+                ops += list(getattr(st, "ops", []) or [])
+            for _, t in b.calls():
+                ops += list(t.args)
+            for o in ops:
+                if o.kind == "const" and o.const.get("def") in lit and o.const.get("ty") in ("f32", "f64") and o.float_value() is None:
+                    o.const["named"] = o.const["val"]
+                    o.const["val"] = lit[o.const["def"]]
 
     def body(self, id):
         return self.bodies.get(id)
